@@ -1008,7 +1008,8 @@ fn cast_into_memory(
 
         memory.write_all(val, *sub_ty, module, builder);
 
-        let discrim = builder.ins().iconst(ptr_ty, *discriminant as i64);
+        // the tag is a single byte; a pointer-sized store would run past the enum's own memory
+        let discrim = builder.ins().iconst(types::I8, *discriminant as i64);
         memory.write_val(builder, discrim, enum_layout.discriminant_offset() as i32);
 
         return Some(memory.into_value(builder, ptr_ty));
